@@ -38,7 +38,7 @@ ASSUMPTIONS = [
 SUBJECTS = ["TestResult", "TextTestResult", "Multi[ext,real]", "TFR[ext]", "TFR[real]", "E2O[py26]",
             "E2O[py27]", "E2O[twisted]", "E2O[ext]", "E2O[real]", "Decorator[ext]", "Tagger[ext]", "TBT",
             "E2O[Multi[ext]]", "Tagger[Multi[ext,real]]", "Multi[TBT,ext]", "E2S", "Multi[Tagger[ext],ext]",
-            "TaggerGoneOnly[ext]", "TaggerGoneOnly[TFR[real]]"]
+            "TaggerGoneOnly[ext]", "TaggerGoneOnly[TFR[real]]", "E2O[E2S]"]
 
 
 class Subject:
@@ -74,7 +74,7 @@ class Subject:
             self.top = testtools.ThreadsafeForwardingResult(leaf(n[4:-1]), threading.Semaphore(1))
         elif n.startswith("E2O[Multi"):
             self.top = testtools.ExtendedToOriginalDecorator(testtools.MultiTestResult(leaf("ext")))
-        elif n.startswith("E2O["):
+        elif n.startswith("E2O[") and n != "E2O[E2S]":
             self.top = testtools.ExtendedToOriginalDecorator(leaf(n[4:-1]))
         elif n == "Decorator[ext]":
             self.top = testtools.TestResultDecorator(leaf("ext"))
@@ -103,7 +103,7 @@ class Subject:
             self.top = tbt()
         elif n == "Multi[TBT,ext]":
             self.top = testtools.MultiTestResult(tbt(), leaf("ext"))
-        elif n == "E2S":
+        elif n in ("E2S", "E2O[E2S]"):
             self.stream_log = recorders.Log()
             self.sink = recorders.StreamRecorder(self.stream_log, "s")
             far_log = recorders.Log()
@@ -114,6 +114,9 @@ class Subject:
             self.top = testtools.ExtendedToStreamDecorator(testtools.CopyStreamResult([
                 self.sink, testtools.StreamToDict(on_dict),
                 testtools.StreamToExtendedDecorator(recorders.ExtRecorder(far_log))]))
+            if n == "E2O[E2S]":
+                # the adapter is built before the run starts (when the stream decorator has no tag context yet)
+                self.top = testtools.ExtendedToOriginalDecorator(self.top)
         else:
             raise ValueError(n)
 
